@@ -192,19 +192,22 @@ func (x *runner) archiveBytes(fam string, arch []byte) {
 			}
 		}
 	} else {
-		lines = append(lines, opline{"new", newOut, true})
-		if !linkInPath(ms) && x.rnd.Intn(2) == 0 {
-			// A Layer over an archive New rejects.
-			lines = append(lines, x.layerLines(arch, nil, 0)...)
-		}
 		if linkInPath(ms) {
 			// New failed on an archive in which some member is placed through a
 			// link: two spellings of one name may have produced two children of
 			// one directory before the failure, and then which of them a walk
 			// meets (and so whether and how New fails) depends on Go's map
 			// iteration order. The tables are gone, so this cannot be checked
-			// after the fact; nothing is compared.
-			skip = "new-failed-with-link-in-a-member-path"
+			// here; the model decides (`ambDuring`) whether such twins ever
+			// existed and answers with its own outcome if they did not.
+			lines = append(lines, opline{"newa " + newOut, newOut, true})
+			r.Count("new-failed-with-link-in-a-member-path")
+		} else {
+			lines = append(lines, opline{"new", newOut, true})
+			if x.rnd.Intn(2) == 0 {
+				// A Layer over an archive New rejects.
+				lines = append(lines, x.layerLines(arch, nil, 0)...)
+			}
 		}
 	}
 	if skip != "" {
